@@ -201,9 +201,11 @@ def _topology(ctx):
                 {'uid': f'roadm {s}', 'type': 'Roadm', 'metadata': {'location': {'latitude': i, 'longitude': i, 'city': s, 'region': ''}}}]
         cx += [{'from_node': f'trx {s}', 'to_node': f'roadm {s}'}, {'from_node': f'roadm {s}', 'to_node': f'trx {s}'}]
     flavour = ctx.choice('line flavour', ['plain', 'long_span', 'short_span', 'fused_junction', 'user_amps_full', 'user_amps_partial',
-                                           'two_fibres_no_amp', 'user_connectors', 'user_amps_delta_p_only'])
+                                           'two_fibres_no_amp', 'user_connectors', 'user_amps_delta_p_only', 'booster_voa_then_auto',
+                                           'inline_voa_only'])
     km = {'plain': 80, 'long_span': 260, 'short_span': 8, 'fused_junction': 60, 'user_amps_full': 90, 'user_amps_partial': 70,
-          'two_fibres_no_amp': 75, 'user_connectors': 50, 'user_amps_delta_p_only': 85}[flavour]
+          'two_fibres_no_amp': 75, 'user_connectors': 50, 'user_amps_delta_p_only': 85, 'booster_voa_then_auto': 85,
+          'inline_voa_only': 80}[flavour]
     for (a, b) in pairs:
         for (u, v) in ((sites[a], sites[b]), (sites[b], sites[a])):
             def fiber(uid, length):
@@ -224,6 +226,18 @@ def _topology(ctx):
                 els += [{'uid': f'booster ({u} → {v})', 'type': 'Edfa', 'type_variety': 'std_medium_gain', 'operational': {'delta_p': 1.0}},
                         fiber(f'fiber ({u} → {v})', km),
                         {'uid': f'preamp ({u} → {v})', 'type': 'Edfa', 'type_variety': 'std_low_gain', 'operational': {'delta_p': 0.5}}]
+                names += [f'booster ({u} → {v})', f'fiber ({u} → {v})', f'preamp ({u} → {v})']
+            elif flavour == 'inline_voa_only':
+                # two spans with an in-line amplifier for which the operator only fixed a 5 dB output VOA
+                els += [fiber(f'fiber ({u} → {v})-1', km), {'uid': f'ila ({u} → {v})', 'type': 'Edfa', 'operational': {'out_voa': 5.0}},
+                        fiber(f'fiber ({u} → {v})-2', km)]
+                names += [f'fiber ({u} → {v})-1', f'ila ({u} → {v})', f'fiber ({u} → {v})-2']
+            elif flavour == 'booster_voa_then_auto':
+                # operator booster with a 2 dB output VOA, followed by an amplifier left entirely to the design
+                els += [{'uid': f'booster ({u} → {v})', 'type': 'Edfa', 'type_variety': 'std_medium_gain',
+                         'operational': {'gain_target': 21.0, 'out_voa': 2.0}},
+                        fiber(f'fiber ({u} → {v})', km),
+                        {'uid': f'preamp ({u} → {v})', 'type': 'Edfa', 'operational': {}}]
                 names += [f'booster ({u} → {v})', f'fiber ({u} → {v})', f'preamp ({u} → {v})']
             elif flavour in ('user_amps_full', 'user_amps_partial'):
                 full = flavour == 'user_amps_full'
